@@ -37,4 +37,13 @@ PROPS = {
         "level_note": "Trusted: Lean kernel (propext, Quot.sound, Classical.choice where simp uses it), Model/Builder.lean being the image of builder.go (sampled by the differential). The equivalence with an independent bottom-up reference construction is checked by the differential on emitted plans, not yet as a theorem.",
         "technique": "case analysis + induction over call histories in Lean 4 (inductive invariant WF) + exact differential correspondence",
     },
+    "C16": {
+        "theorems": ["accept_iff_wellFormed", "nil_rejected", "total", "duplicate_key_rejected"],
+        "assumptions": COMMON_ASSUME + ["the input flags (blank name, key version, plugin registered, request accepted by the plugin) are observed with the Go standard library / the scripted plugin, not with coercion code",
+                                        "error classes, not texts, are compared; an unknown error text is accepted wherever the model expects some error"],
+        "trusted": ["modelled: workflow.Validate + the per-object validate methods (Model/Validate.lean); Submit's defaults and Start's validators are checked on the implementation only (monitors C16.accepted_pristine, C16.start_refuses_noncheck)"],
+        "level_text": "Lean theorem over all plans: the modelled Validate (breadth-first walk = level order, per-object rules in source order, shared key set) accepts exactly the WellFormed plans (independent recursive predicate + pairwise distinct non-nil keys); nil plan rejected; duplicate keys rejected (full statement, proved after the fix: commit for D12). Tie: accept/reject + error class of real Submit vs the model on valid plans with 0-3 of 16 mutation kinds at random objects; store row counts after a reject; ids/state/submit time after an accept; Start's check-plugin rule.",
+        "level_note": "Trusted: Lean kernel (propext, Quot.sound, Classical.choice), Model/Validate.lean being the image of workflow.go's validate methods (sampled), harness observation of input flags. 'No trace on reject' and 'pristine on accept' are checked on the implementation (row counts, read-back), not proved.",
+        "technique": "Lean 4 proof of accept <-> WellFormed (list induction over the BFS order + per-node rule lemmas) + differential correspondence with mutation-based generator",
+    },
 }
